@@ -68,6 +68,8 @@ type Exec struct {
 	assignsOn     bool
 	assignsAll    bool
 	usedContracts map[string]bool
+	instSeq       int // explicit-instance groups (one per skolemised goal)
+	pendingInst   int // group of the instances emitted for the next obligation
 	topFrame      *Frame
 	revealed      map[string]bool
 	usedLemmas    map[string]bool
@@ -173,6 +175,7 @@ func (ex *Exec) oblige(st *State, fr *Frame, kind string, pos token.Pos, src str
 	ex.oblCount[base]++
 	name := fmt.Sprintf("%s#%d", base, ex.oblCount[base])
 	o := &Obl{Name: name, Kind: kind, Func: ex.vc.Func, Guard: st.guard, Goal: goal, Prefix: len(ex.vc.cmds), vc: ex.vc, Src: src, Props: ex.props}
+	o.InstTag, ex.pendingInst = ex.pendingInst, 0
 	if pos.IsValid() {
 		o.Pos = ex.ld.fset.Position(pos)
 	}
